@@ -20,6 +20,7 @@ def c17(run):
     r_file.run_copy_through(run, P)
     r_file.run_no_remove(run, P)
     r_file.run_raw_packet(run, P)
+    r_file.run_load_order(run, P)
     run.min_instances('R-FILE-MODE', 14)
     run.min_instances('R-PERSIST', 6)
     run.assumptions = ASSUME_COMMON + ["fopen mode strings are literals (a non-literal mode is counted and not judged)"]
@@ -28,7 +29,7 @@ def c17(run):
         "coap_subscribe.c): decides the structural clauses 'a stream is only read/written if its open mode allows it' and, per "
         "updater, 'only the .tmp copy is written, the real file is never opened truncating, rename() is reached only after a "
         "flush/close of the .tmp stream whose tested result is success'. These are necessary for 'old or new complete state "
-        "after a crash'; restart behaviour and Observe counter values are NOT decided. A record that is only copied into the new file is written back with exactly the variables the read call of that loop filled (R-PERSIST copy-through). No remove()/unlink() is applied to the destination of a function's rename() (one atomic step). The raw request recorded for a dynamically created resource spans header and body (raw packet).")
+        "after a crash'; restart behaviour and Observe counter values are NOT decided. A record that is only copied into the new file is written back with exactly the variables the read call of that loop filled (R-PERSIST copy-through). No remove()/unlink() is applied to the destination of a function's rename() (one atomic step). The raw request recorded for a dynamically created resource spans header and body (raw packet). No loader that creates resources is reachable after a loader that looks resources up (load order).")
 
 
 def c13(run):
@@ -72,6 +73,8 @@ def c18(run):
     r_consume.run_handback(run, P)
     from rules import r_ownraw
     r_ownraw.run(run, P)
+    from rules import r_dangfield
+    r_dangfield.run(run, P)
     from rules import r_relonce
     r_relonce.run(run, P)                # a body handed to coap_add_data_large_*() is released exactly once, also when a later allocation fails
     from rules import r_noexit
@@ -85,7 +88,7 @@ def c18(run):
         "given its own buffer (R-SHALLOW-ALIAS); a record allocated in a function is not released with the raw allocator call while fields of it still "
         "hold objects created on that path (R-HOLDER-LEAK); strings, binaries, option lists and cache keys created in a function are released, stored, returned or handed "
         "on on every path, error paths included (R-OWN-LOCAL); a local pointer handed to a (computed, must-free) destructor is not used again before it is "
-        "re-assigned (R-USE-AFTER-DESTROY). Necessary for 'allocation failure is survived without crash or leak'. The result of a reallocating call is never stored into the pointer that was passed as the old block, and no field of the owning parameter object is changed ahead of a reallocation that fails (R-REALLOC-COMMIT); GnuTLS's allocators (function-pointer variables) are may-fail constructors too. A function that takes over an object it is handed agrees over all its failure returns on who owns it afterwards (R-CONSUME-AGREE); no library function calls exit/abort (R-NO-EXIT: the out-of-memory arm of the bundled uthash's HASH_ADD does, at six sites, which are known findings). A record field handed to a may-delete-and-return helper is assigned again on every path after the call (hand-back); scratch buffers are released on every path (R-OWN-RAW). The body's release callback is stored in the transfer record before the first failure exit that relies on the record to run it (R-RELEASE-ONCE under C18).")
+        "re-assigned (R-USE-AFTER-DESTROY). Necessary for 'allocation failure is survived without crash or leak'. The result of a reallocating call is never stored into the pointer that was passed as the old block, and no field of the owning parameter object is changed ahead of a reallocation that fails (R-REALLOC-COMMIT); GnuTLS's allocators (function-pointer variables) are may-fail constructors too. A function that takes over an object it is handed agrees over all its failure returns on who owns it afterwards (R-CONSUME-AGREE); no library function calls exit/abort (R-NO-EXIT: the out-of-memory arm of the bundled uthash's HASH_ADD does, at six sites, which are known findings). A record field handed to a may-delete-and-return helper is assigned again on every path after the call (hand-back); scratch buffers are released on every path (R-OWN-RAW). The body's release callback is stored in the transfer record before the first failure exit that relies on the record to run it (R-RELEASE-ONCE under C18). A record field handed to a destructor is assigned again (or its holder disposed of) on every path (R-DANGLING-FIELD).")
 
 
 def c12(run):
@@ -99,6 +102,8 @@ def c12(run):
     r_session.run_hashed(run, P)
     r_session.run_touch(run, P)
     r_session.run_key_zero(run, P)
+    from rules import r_finderkey
+    r_finderkey.run(run, P)
     from rules import r_consume
     r_consume.run(run, P)
     from rules import r_ownraw
@@ -114,7 +119,7 @@ def c12(run):
         "Reference discipline of sessions decided on every path: temporary references are released in the same function (R-REF-TMP); objects "
         "holding a session reference (computed: queue nodes, subscriptions, async entries) release it before they are freed or cleared "
         "(R-REF-HOLD); a server session is never freed without SERVER_SESSION_DEL and NEW is raised once (R-SESS-EVT); function-local owners "
-        "of strings/binaries/optlists/cache keys are disposed of on every path (R-OWN-LOCAL). Necessary for 'live while referenced, everything released'. After a holder's session reference was released the field is overwritten or the holder freed raw on every path (R-REF-HOLD stale); a session made in a function is freed there only after it was added to a session table (R-SESS-HASHED). A function that takes over an object it is handed agrees over all its failure returns on who owns the object afterwards (R-CONSUME-AGREE). Scratch buffers (raw allocations the function itself frees) are released on every path (R-OWN-RAW); a session found by the hash look-up is returned only after last_rx_tx was refreshed (idle accounting). The record that files and finds sessions by its bytes is zeroed as a whole before its fields are set, in its constructor and for every local look-up key (R-SESS-KEY).")
+        "of strings/binaries/optlists/cache keys are disposed of on every path (R-OWN-LOCAL). Necessary for 'live while referenced, everything released'. After a holder's session reference was released the field is overwritten or the holder freed raw on every path (R-REF-HOLD stale); a session made in a function is freed there only after it was added to a session table (R-SESS-HASHED). A function that takes over an object it is handed agrees over all its failure returns on who owns the object afterwards (R-CONSUME-AGREE). Scratch buffers (raw allocations the function itself frees) are released on every path (R-OWN-RAW); a session found by the hash look-up is returned only after last_rx_tx was refreshed (idle accounting). The record that files and finds sessions by its bytes is zeroed as a whole before its fields are set, in its constructor and for every local look-up key (R-SESS-KEY). Per-session finders (computed: coap_find_observer, coap_find_observer_cache_key, coap_find_async_lkd) return only elements whose session field equals the session they were asked for (R-FINDER-KEY).")
 
 
 CODEC_UNITS = ('coap_pdu.c', 'coap_option.c')
@@ -139,6 +144,9 @@ def c01(run):
     r_fixup.run_atomic(run, P)
     r_fixup.run_maxopt(run, P)
     r_fixup.run_rebase(run, P)
+    r_fixup.run_capacity(run, P)
+    from rules import r_width as _rw
+    _rw.run_f(run, P)
     from rules import r_stalecopy
     r_stalecopy.run_scalar(run, P)       # no stale copy of the running option number across an appending call
     run.min_instances('R-CODEC-TAB', 30)
@@ -148,7 +156,7 @@ def c01(run):
         "Writer/reader table agreement decided statically: the thresholds, arm offsets and nibble splits of every option/TCP-length/token-length "
         "encoder and decoder equal the RFC 7252/8323/8974 tables and each other, the decoder's option-number bound as folded by the compiler equals the "
         "builder's (R-CODEC-TAB); no store passes through a narrowing explicit cast that can lose bits (R-WIDTH); the builder never uses a buffer "
-        "pointer across a reallocation and moves payload pointer and size together (R-FIXUP). Necessary conditions of the round trip. Every ordering comparison against the extended-token bias macros cuts the application token lengths exactly at 13 / 269 (R-CODEC-TAB 7, by enumeration over all token lengths). The largest token the library accepts is the RFC 8974 maximum as the compiler folded it (8); a stored payload marker is followed by payload of known non-zero length (9); an editor advances used_size only after coap_opt_encode() succeeded (R-FIXUP). After a removal max_opt comes from the options that remain; coap_pdu_resize() re-bases data against the old token pointer; the stream frame size adds the token-extension bytes.")
+        "pointer across a reallocation and moves payload pointer and size together (R-FIXUP). Necessary conditions of the round trip. Every ordering comparison against the extended-token bias macros cuts the application token lengths exactly at 13 / 269 (R-CODEC-TAB 7, by enumeration over all token lengths). The largest token the library accepts is the RFC 8974 maximum as the compiler folded it (8); a stored payload marker is followed by payload of known non-zero length (9); an editor advances used_size only after coap_opt_encode() succeeded (R-FIXUP). After a removal max_opt comes from the options that remain; coap_pdu_resize() re-bases data against the old token pointer; the stream frame size adds the token-extension bytes. coap_pdu_check_resize() answers non-zero only with alloc_size >= size known or after growing to a size known >= size (capacity contract); the decoder's option-number bound separates exactly the numbers above 65535, whatever its spelling (enumerated); no right shift discards every bit of an explicitly narrowed value (R-WIDTH f).")
 
 
 def c03(run):
@@ -173,7 +181,7 @@ def c03(run):
         "16-bit delta / running number with wrap-guard or range-guard discharge, R-WIDTH); decoder tables agree with the encoder's and the RFCs "
         "(R-CODEC-TAB); every reject condition of the frozen table (nibble 15, TKL 15, token longer than message, marker without payload, "
         "non-empty Empty, option-number overflow, runt) exists and every path through its rejecting arm returns 0, and coap_dispatch is reached only "
-        "after successful parser calls (R-PARSE-GATE). The accept flag a decoding function collects over several checks is never raised again once it is 0 (R-PARSE-GATE verdict); token-length thresholds cut at 13 / 269 (R-CODEC-TAB 7). A stored payload marker is followed by payload of known non-zero length (R-CODEC-TAB 9). An argument implicitly narrowed to an 8-/16-bit parameter in the decoding units is proven to fit (R-WIDTH d: the per-option limits see the full option length).")
+        "after successful parser calls (R-PARSE-GATE). The accept flag a decoding function collects over several checks is never raised again once it is 0 (R-PARSE-GATE verdict); token-length thresholds cut at 13 / 269 (R-CODEC-TAB 7). A stored payload marker is followed by payload of known non-zero length (R-CODEC-TAB 9). An argument implicitly narrowed to an 8-/16-bit parameter in the decoding units is proven to fit (R-WIDTH d: the per-option limits see the full option length). The option-number bound of next_option_safe() is decided by enumeration over boundary pairs, and its overflow-safe spelling `delta > MAX - *max_opt` is recognised by the wrap guard and the reject table.")
 
 
 def c04(run):
@@ -185,6 +193,9 @@ def c04(run):
     r_fixup.run_atomic(run, P)
     r_fixup.run_maxopt(run, P)
     r_fixup.run_rebase(run, P)
+    r_fixup.run_capacity(run, P)
+    from rules import r_width as _rw
+    _rw.run_f(run, P)
     from rules import r_stalecopy
     r_stalecopy.run_scalar(run, P)
     from rules import r_codec
@@ -199,7 +210,7 @@ def c04(run):
     return run.finish(
         "In-place editors (coap_update_token, coap_remove_option, coap_insert_option, coap_update_option and the codec units): every adjustment of "
         "used_size is matched by the same adjustment of a non-NULL payload pointer and equals the memmove distance, no pointer into the buffer is used "
-        "after a call that may reallocate it (R-FIXUP), and no length is stored through a narrowing explicit cast that can truncate it (R-WIDTH). Token-length thresholds are applied so that they cut the application token lengths at 13 / 269 (R-CODEC-TAB 7). An editor advances used_size only after coap_opt_encode() succeeded (R-FIXUP, bytes before bookkeeping). After a removal max_opt is recomputed from the options that remain (R-FIXUP max_opt).")
+        "after a call that may reallocate it (R-FIXUP), and no length is stored through a narrowing explicit cast that can truncate it (R-WIDTH). Token-length thresholds are applied so that they cut the application token lengths at 13 / 269 (R-CODEC-TAB 7). An editor advances used_size only after coap_opt_encode() succeeded (R-FIXUP, bytes before bookkeeping). After a removal max_opt is recomputed from the options that remain (R-FIXUP max_opt). coap_pdu_check_resize() answers non-zero only with the capacity known (capacity contract); no right shift discards every bit of an explicitly narrowed value (R-WIDTH f: the high delta byte written by coap_remove_option()).")
 
 
 def c05(run):
@@ -210,6 +221,7 @@ def c05(run):
     r_stream.run_cursor(run, P)
     r_stream.run_needed_len(run, P)
     r_stream.run_unit_complete(run, P)
+    r_stream.run_phase_local(run, P)
     r_stream.run_cap(run, P)
     r_stream.run_cap_own(run, P)
     run.min_instances('R-STREAM-ADV', 4)
@@ -220,7 +232,7 @@ def c05(run):
         "Stream readers (TCP three-state reader, WebSocket frame and handshake readers): every transfer of n bytes to buffer+counter is followed by "
         "an advance of that counter by the same n or a reset, on every path (R-STREAM-ADV); a length declared by the peer reaches an allocation/copy/"
         "read size only after the non-exceeding arm of a comparison with a maximum, the exceeding arm reaches a closing call, and a full handshake "
-        "line buffer is rejected (R-STREAM-CAP). Necessary for 'same messages however the stream is cut' and 'over-long closes the session'. The receive limit, once our own maximum is set, is computed without any session field the peer can set (R-STREAM-CAP own limit; peer-settable fields computed from the assignments of decoded option values). A position is never SET to the size of the piece just stored unless it is known 0, and the local that is compared as needed length with a progress counter is not increased after that comparison let the function carry on (R-STREAM-ADV). The header is handed to the size function with a length only under a condition that mentions every variable of that length (unit complete).")
+        "line buffer is rejected (R-STREAM-CAP). Necessary for 'same messages however the stream is cut' and 'over-long closes the session'. The receive limit, once our own maximum is set, is computed without any session field the peer can set (R-STREAM-CAP own limit; peer-settable fields computed from the assignments of decoded option values). A position is never SET to the size of the piece just stored unless it is known 0, and the local that is compared as needed length with a progress counter is not increased after that comparison let the function carry on (R-STREAM-ADV). The header is handed to the size function with a length only under a condition that mentions every variable of that length (unit complete). A local that a reader assigns in its header phase and stores into the session record is not read on a path that skipped that phase (phase-local value).")
 
 
 def c16(run):
@@ -232,6 +244,7 @@ def c16(run):
     r_uriclass.run(run, P)
     r_uriclass.run_hexcase(run, P)
     r_uriclass.run_dot_root(run, P)
+    r_uriclass.run_default_ports(run, P)
     from rules import r_sizefill
     r_sizefill.run(run, P, units=('coap_uri.c',))
     r_sizefill.run_separator(run, P, units=('coap_uri.c',))
@@ -246,7 +259,7 @@ def c16(run):
         "coap_host_is_unix_domain) is proven inside the delimited bytes by a cursor/remaining-length analysis, and decode_segment is only called "
         "after a tested check_segment on the same arguments (R-LEN-READ); the unescaped character classes, evaluated for all 256 byte values on "
         "the extracted expression, exclude the separators the reconstruction writes and '%' (R-URI-CLASS, necessary for injectivity); optlist "
-        "constructors are NULL-checked (R-ALLOC-NULL). The measuring and the filling loop of the reconstruction agree for all 256 byte values (R-SIZE-FILL); a port number cannot leave its digit loop through the value guard without being rejected by the range check (R-LEN-READ accumulator guard). Equality tests against hex letters come in both cases (R-URI-CLASS hex case). The position from which a `..` segment may delete is behind the last element the caller's chain already held (dot-dot stops at the root).")
+        "constructors are NULL-checked (R-ALLOC-NULL). The measuring and the filling loop of the reconstruction agree for all 256 byte values (R-SIZE-FILL); a port number cannot leave its digit loop through the value guard without being rejected by the range check (R-LEN-READ accumulator guard). Equality tests against hex letters come in both cases (R-URI-CLASS hex case). The position from which a `..` segment may delete is behind the last element the caller's chain already held (dot-dot stops at the root). Every scheme is compared, in coap_uri_into_optlist(), with its own default port of coap_uri_scheme[] (default ports agree).")
 
 
 def c15(run):
@@ -311,6 +324,7 @@ def c06(run):
     r_cnt.run_counted_queued(run, P)     # a counted Confirmable is queued for retransmission (or un-counted): it cannot vanish without an outcome
     from rules import r_timer
     r_timer.run(run, P)
+    r_timer.run_base(run, P)
     r_cnt.run_flush_order(run, P)        # a held Confirmable is released when the slot in front of it is freed
     from rules import r_midzero
     r_midzero.run(run, P)
@@ -322,7 +336,7 @@ def c06(run):
         "Send-queue node typestate on every path of every function handling coap_queue_t*: a node has exactly one owner (held / in the send "
         "queue / in a delay queue / deleted), is never deleted while linked in a delay queue, never used after deletion and never lost "
         "(R-OWN-NODE) - so after its single outcome a message cannot be sent again; in coap_retransmit the retransmission is gated by "
-        "retransmit_cnt < max_retransmit with exactly one increment, and a given-up Confirmable is NACKed exactly once before deletion (R-RETRANS). Whoever arms the context's timerfd has recorded the deadline it arms it for (R-TIMER-REC). No test of a coap_mid_t typed value separates id 0 from the other ids (R-MID-ZERO).")
+        "retransmit_cnt < max_retransmit with exactly one increment, and a given-up Confirmable is NACKed exactly once before deletion (R-RETRANS). Whoever arms the context's timerfd has recorded the deadline it arms it for (R-TIMER-REC). No test of a coap_mid_t typed value separates id 0 from the other ids (R-MID-ZERO). The base time of the send queue is set only with the queue known empty, or advanced by the adjuster that takes the same delta off the queued deadlines (queue base).")
 
 
 REPLY_FUNCS = ('handle_request', 'coap_dispatch', 'check_token_size', 'hnd_get_wellknown_lkd', 'coap_new_error_response', 'coap_send_ack_lkd',
@@ -339,6 +353,8 @@ def c10(run):
     r_reply.run_ack_con(run, P)
     r_reply.run_resolve_order(run, P)
     r_reply.run_helper_verdict(run, P)
+    from rules import r_restart
+    r_restart.run(run, P)
     from rules import r_suppress
     r_suppress.run(run, P)
     from rules import r_ownnode
@@ -356,7 +372,7 @@ def c10(run):
         "coap_send_internal; R-OWN-PDU), and no path of coap_dispatch / handle_request passes two emission points other than the Empty-ACK-then-"
         "response pattern (R-REPLY-ONCE). Suppression table: every per-resource multicast suppression flag is paired with the response class its public "
         "name states, on the arm its polarity (ENA/DIS) demands, and leads to a drop; the flags are distinct bits; the No-Response bitmap is indexed "
-        "with class-1 (R-SUPPRESS-TAB). A token is copied into a reply with the length of the bytes it is copied from (R-PAIR-ARGS, library-wide). The unknown-resource handler is selected only after the request path was compared with the well-known URI or the HANDLE_WELLKNOWN_CORE flag found set (resolution order). A static helper that the dispatcher calls in a condition and that emits a reply returns 0 on every path that passed the emission (helper verdict).")
+        "with class-1 (R-SUPPRESS-TAB). A token is copied into a reply with the length of the bytes it is copied from (R-PAIR-ARGS, library-wide). The unknown-resource handler is selected only after the request path was compared with the well-known URI or the HANDLE_WELLKNOWN_CORE flag found set (resolution order). A static helper that the dispatcher calls in a condition and that emits a reply returns 0 on every path that passed the emission (helper verdict). A scan that is restarted inside its own loop sets its loop-carried locals back to their initial values (R-RESTART-STATE: last_number of the repeated-option check).")
 
 
 def c09(run):
@@ -372,6 +388,8 @@ def c09(run):
     from rules import r_blkmore
     r_blkmore.run(run, P)
     r_blkmore.run_size_sync(run, P)
+    from rules import r_freshlabel
+    r_freshlabel.run(run, P)
     run.min_instances('R-RELEASE-ONCE', 5)
     run.assumptions = ASSUME_COMMON + ["body integrity, tiling, at-most-once delivery, token hiding and size fitting (arithmetic over runtime lengths and schedules) are NOT decided",
                                        "paths on which taking the global lock fails carry no obligations"]
@@ -380,7 +398,7 @@ def c09(run):
         "coap_block.c is reached only with the compared length known to be within (for equality look-ups: equal to) the length of both operands, so a "
         "look-up cannot match a state whose key differs in length or was compared over the wrong length (R-CMP-BOUND). (2) 'the sender's release callback runs exactly once'. For every function taking a release_func parameter, on "
         "every path with release_func not known NULL the callback is called exactly once, handed to a callee with the same obligation, or stored "
-        "into an lg_xmit that is linked into session->lg_xmit or deleted; coap_block_delete_lg_xmit calls it exactly once (R-RELEASE-ONCE). A reassembled request body is handed to the application from a block with the More bit set only on paths that found the record's no_more_seen flag set (R-BODY-COMPLETE; the Q-Block1 arm violates this and is a known finding). When a response handler expires a transfer record and hands the response up, the application's token is back in the received PDU (or was compared) on every path (application token clause). Every More bit computed for a body being sent equals `length - offset > bytes in this block` (R-BLK-MORE, enumerated), and in the function that selects its own block size the record's requested chunk_size is read only after the record was re-synchronised (one block size).")
+        "into an lg_xmit that is linked into session->lg_xmit or deleted; coap_block_delete_lg_xmit calls it exactly once (R-RELEASE-ONCE). A reassembled request body is handed to the application from a block with the More bit set only on paths that found the record's no_more_seen flag set (R-BODY-COMPLETE; the Q-Block1 arm violates this and is a known finding). When a response handler expires a transfer record and hands the response up, the application's token is back in the received PDU (or was compared) on every path (application token clause). Every More bit computed for a body being sent equals `length - offset > bytes in this block` (R-BLK-MORE, enumerated), and in the function that selects its own block size the record's requested chunk_size is read only after the record was re-synchronised (one block size). A label counter (a field whose only writers are ++: the context's ETag counter) is stepped before its value is taken (R-FRESH-LABEL).")
 
 
 def c20(run):
@@ -412,6 +430,8 @@ def c19(run):
     r_route.run_event_reset(run, P)
     from rules import r_delayq
     r_delayq.run(run, P)
+    from rules import r_cnt
+    r_cnt.run(run, P)                    # the flush of what was queued during the handshake (coap_session_connected) counts a Confirmable only on the arm that sends it
     run.min_instances('R-ROUTE', 8)
     run.assumptions = ASSUME_COMMON + ["credential acceptance happens inside GnuTLS (gnutls_handshake returns GNUTLS_E_SUCCESS only for credentials both sides accept)",
                                        "handshake schedules and NACK-once for queued requests are NOT decided"]
@@ -421,7 +441,7 @@ def c19(run):
         "gnutls_handshake's result and do_gnutls_handshake returns 1 only there; coap_session_connected and record I/O in the back end happen only "
         "after that; coap_send_pdu transmits only with session->state == ESTABLISHED (R-ROUTE). Credential verdict: in the PSK callbacks the result of "
         "the application's identity / hint validation callback is never replaced before it is acted on, and a success return is only reached with it "
-        "known non-NULL (R-PSK-VERDICT). Where the identity / hint callback is known installed a success return is reached only after it was called; a node taken off a delay queue is deleted only after its PDU went to the transport or, being Confirmable, to coap_handle_nack (R-DELAYQ-NACK). Every back-end function that acts on session->dtls_event assigned the idle value to it earlier in the same call (stale event).")
+        "known non-NULL (R-PSK-VERDICT). Where the identity / hint callback is known installed a success return is reached only after it was called; a node taken off a delay queue is deleted only after its PDU went to the transport or, being Confirmable, to coap_handle_nack (R-DELAYQ-NACK). Every back-end function that acts on session->dtls_event assigned the idle value to it earlier in the same call (stale event). The loop that sends what was queued during the handshake raises con_active only on the arm that is below NSTART and sends the message (R-CNT-CON a-d): a count raised for a message that stays queued blocks everything behind it for good.")
 
 
 def c14(run):
@@ -430,6 +450,7 @@ def c14(run):
     r_oscsplit.run(run, P)
     from rules import r_oscrole
     r_oscrole.run(run, P)
+    r_oscrole.run_assoc_source(run, P)
     r_oscsplit.run_flag_reach(run, P)
     r_oscsplit.run_match_acc(run, P)
     r_oscsplit.run_outer_discard(run, P)
@@ -446,7 +467,7 @@ def c14(run):
         "reached only with the result of cose_encrypt0_decrypt known > 0 (R-OSC-SPLIT); (3) the association that carries the request's AAD, "
         "nonce and partial IV to the response is filled, refreshed and read back field-for-field from the COSE object's fields of the same role "
         "(R-OSC-ROLE, roles computed from the two record types); (4) every local flag that steers an RFC 8613 step in the protect / unprotect "
-        "functions can have its non-initial value where it is tested (reaching definitions). The option decoder examines all eight bits of the flag byte (R-OSC-FLAGS). The CBOR head writer produces the RFC 8949 form at the boundary values of every form (R-OSC-CBOR). While the iterator walks the received PDU every class E option number is on the discard arm (outer discard).")
+        "functions can have its non-initial value where it is tested (reaching definitions). The option decoder examines all eight bits of the flag byte (R-OSC-FLAGS). The CBOR head writer produces the RFC 8949 form at the boundary values of every form (R-OSC-CBOR). While the iterator walks the received PDU every class E option number is on the discard arm (outer discard). With the exchange's association found, the recipient context is not taken from the session (association is the source).")
 
 
 def c02(run):
@@ -456,6 +477,8 @@ def c02(run):
     r_range.run_cbor(run, P)
     r_range.run_cbor_reader(run, P)
     r_range.run_token_ext(run, P)
+    from rules import r_dangfield
+    r_dangfield.run(run, P)
     from rules import r_codec
     r_codec.run_tokext(run, P)            # the stream reader frames messages with coap_pdu_parse_size(): its token-extension sums agree with the decoder's
     r_shift.run(run, P, units=('oscore.c', 'oscore_cbor.c'))
@@ -466,6 +489,7 @@ def c02(run):
     r_stream.run_cursor(run, P)
     r_stream.run_needed_len(run, P)
     r_stream.run_unit_complete(run, P)
+    r_stream.run_phase_local(run, P)
     r_parsegate.run(run, P)
     r_fixup.run_stale(run, P)
     from rules import r_cmpbound
@@ -501,7 +525,7 @@ def c02(run):
         "leads to rejection (R-PARSE-GATE); no pointer into a PDU buffer is used after a call that may reallocate it, library-wide (R-FIXUP); every "
         "memcmp/strncmp over a length-delimited string is bounded by that string's own length (R-CMP-BOUND); a persistent element count that bounds a "
         "fixed-size array (block reassembly tracker) only grows behind one common capacity guard (R-COUNT-CAP); a local copy of an owned pointer "
-        "field is not used after a call that is handed the owning object and may free that field (R-STALE-COPY). A function that was given the capacity of the buffer it fills compares against it before every variable-size copy (R-WRITE-CAP, NDEBUG build); the measuring and the filling pass of the two-pass string builders count and store the same number of bytes for every byte value (R-SIZE-FILL); a call that is handed X.length is handed X.s (R-PAIR-ARGS); the receive limit, once our own maximum is set, uses no peer-settable session field (R-STREAM-CAP own limit). Header fields (code, type) of a PDU parameter are wire-derived for R-RANGE, and the interval engine knows the unsigned range idiom (size_t)v - K1 < K; a stream position is never set to the size of the piece just stored and a needed header length is final when compared with what has arrived (R-STREAM-ADV). Separators of the query reconstruction are decided by segment count (R-SIZE-FILL separators); a maybe-NULL call result does not reach a dereferencing libc routine untested (R-NULL-RET); token[K] extension bytes are read only where the length is known > K (R-RANGE).")
+        "field is not used after a call that is handed the owning object and may free that field (R-STALE-COPY). A function that was given the capacity of the buffer it fills compares against it before every variable-size copy (R-WRITE-CAP, NDEBUG build); the measuring and the filling pass of the two-pass string builders count and store the same number of bytes for every byte value (R-SIZE-FILL); a call that is handed X.length is handed X.s (R-PAIR-ARGS); the receive limit, once our own maximum is set, uses no peer-settable session field (R-STREAM-CAP own limit). Header fields (code, type) of a PDU parameter are wire-derived for R-RANGE, and the interval engine knows the unsigned range idiom (size_t)v - K1 < K; a stream position is never set to the size of the piece just stored and a needed header length is final when compared with what has arrived (R-STREAM-ADV). Separators of the query reconstruction are decided by segment count (R-SIZE-FILL separators); a maybe-NULL call result does not reach a dereferencing libc routine untested (R-NULL-RET); token[K] extension bytes are read only where the length is known > K (R-RANGE). After a record field was handed to a destructor every path assigns the field again or disposes of its holder (R-DANGLING-FIELD; array slots and locals declined, teardown helpers computed).")
 
 
 def c07(run):
@@ -535,6 +559,9 @@ def c11(run):
     r_observe.run_dirty(run, P)
     r_observe.run_delete_key(run, P)
     r_observe.run_delete_all(run, P)
+    r_observe.run_fail_count(run, P)
+    from rules import r_finderkey
+    r_finderkey.run(run, P)
     run.assumptions = ASSUME_COMMON + ["freshness / ordering of Observe values, 'the last state is eventually notified', NSTART back-pressure and every deregistration route other than "
                                        "the Reset with a matching queue node are NOT decided; 'the session stays alive while it has observers' is the holder rule of C12"]
     return run.finish(
@@ -543,7 +570,7 @@ def c11(run):
         "notification is made Non-confirmable only below COAP_OBS_MAX_NON consecutive ones (or NON_ALWAYS / the final 4.04) and the counter is reset / "
         "incremented to match the chosen type before the transmission (R-OBS-CON, coap_notify_observers); a Reset that matches a queued message reaches "
         "coap_cancel(), which removes the observer (R-OBS-RST, coap_dispatch); an observer skipped before its notification was handed to the transmit path is marked "
-        "dirty so that the partially-dirty pass visits it again (R-OBS-DIRTY, coap_notify_observers). The subscription found by cache key is deleted by its own token (R-OBS-REPLACE). coap_delete_observer() is given a looked-at subscription's token only with a session known to be that subscription's (R-OBS-RST whose observer). The function that drops a lost session's observers visits every element of the list (delete all).")
+        "dirty so that the partially-dirty pass visits it again (R-OBS-DIRTY, coap_notify_observers). The subscription found by cache key is deleted by its own token (R-OBS-REPLACE). coap_delete_observer() is given a looked-at subscription's token only with a session known to be that subscription's (R-OBS-RST whose observer). The function that drops a lost session's observers visits every element of the list (delete all). A failed notification is counted before the count is compared with the limit (failure count); a per-session finder returns only elements of the session it was asked for (R-FINDER-KEY).")
 
 
 PROPS = {
